@@ -165,6 +165,7 @@ def std_struct_config(rng, *, kinds, always=(), multi_p=0.3, lo=3, hi=60, mean=1
         [["Universe"], ["Universe", "SubUniverse"], ["Universe", "FalsyUniverse"], ["FalsyUniverse", "SubUniverse"]]
     )
     cfg["restarts"] = rng.random() < 0.3  # pickle round trips (in process) in mid-history
+    cfg["p_item_syntax"] = rng.choice([0.0, 0.0, 0.3])  # e["v2"] = x instead of e.v2 = x
     cfg["multi"] = rng.random() < multi_p
     cfg["nmv"] = rng.randint(1, 3)
     kinds = list(kinds)
